@@ -339,6 +339,13 @@ fn run(ctx: &mut Ctx, si: usize, case: u64) {
         _ => {
             let len = ctx.rng.usize_below(65);
             let mut buf = ctx.rng.bytes(len);
+            if ctx.rng.chance(1, 6) {
+                // byte patterns with period 1, 2 or 4 (what memset-like fills and mask constants look like)
+                let p = [1usize, 2, 2, 4][ctx.rng.usize_below(4)];
+                for i in p..len {
+                    buf[i] = buf[i - p];
+                }
+            }
             if ctx.rng.chance(1, 4) && len >= 8 {
                 // plant a boundary value
                 let at = ctx.rng.usize_below(len - 7);
